@@ -37,12 +37,17 @@ type Case struct {
 	FreshTr  bool         `json:"fresh_transport,omitempty"` // a new UTransport (new socket) per dial, same spec value
 	CloseBy  string       `json:"close_by,omitempty"`        // "" = the client closes each connection; "server" = the server does, the client re-dials at once
 	Observed string       `json:"observed,omitempty"`        // "" | log | trace | both: debug logging on / Config.Tracer set (output dropped)
-	SchedUs  int          `json:"sched_us,omitempty"`        // virtual microseconds that pass at every schedule point of the library (quic.VerifSchedHook)
-	Server   ServerCfg    `json:"server"`
-	RTTms    int          `json:"rtt_ms"`
-	EchoSize int          `json:"echo"`
-	Faults   []sim.Fault  `json:"faults,omitempty"`
-	Seed     uint64       `json:"seed"`
+	// SwapBase: dials #2.. on the same Transport use a spec built from this other base (another source connection ID length)
+	SwapBase string `json:"swap_base,omitempty"`
+	// PreUse: what the client's Transport has already been used for when the first spec dial happens:
+	// "" nothing | "listen" it also listens (server role on the same socket) | "plain" a plain Transport.Dial + close
+	PreUse   string      `json:"pre_use,omitempty"`
+	SchedUs  int         `json:"sched_us,omitempty"` // virtual microseconds that pass at every schedule point of the library (quic.VerifSchedHook)
+	Server   ServerCfg   `json:"server"`
+	RTTms    int         `json:"rtt_ms"`
+	EchoSize int         `json:"echo"`
+	Faults   []sim.Fault `json:"faults,omitempty"`
+	Seed     uint64      `json:"seed"`
 }
 
 func pattern(seed uint64, n int) []byte {
@@ -65,6 +70,15 @@ func genCase(t *rapid.T) Case {
 	c.Spec = specgen.Gen(t, specgen.Options{Bases: bases, CHLen: chlen})
 	c.Observed = rapid.SampledFrom([]string{"", "", "", "", "", "", "", "", "", "log", "trace", "both"}).Draw(t, "observed")
 	c.Dials = rapid.SampledFrom([]int{1, 1, 2, 3}).Draw(t, "dials")
+	// A Transport that was initialised before the first spec dial keeps its connection ID length, so the ClientHello
+	// (initial_source_connection_id) can be a few bytes longer or shorter than the spec alone implies: only specs whose
+	// builder and plans do not depend on the exact ClientHello length are combined with a pre-used Transport.
+	if rapid.IntRange(0, 5).Draw(t, "shared-transport") == 0 && c.Spec.Builder == nil && len(c.Spec.Plans) == 0 {
+		c.PreUse = rapid.SampledFrom([]string{"listen", "plain"}).Draw(t, "preuse")
+	}
+	if c.Dials > 1 && rapid.IntRange(0, 4).Draw(t, "swap") == 0 {
+		c.SwapBase = rapid.SampledFrom(bases).Draw(t, "swapbase")
+	}
 	c.FreshTr = rapid.Bool().Draw(t, "fresh")
 	if rapid.IntRange(0, 2).Draw(t, "closeby") == 0 {
 		c.CloseBy = "server"
@@ -216,6 +230,30 @@ func runCase(c Case, u *vf.Unit) *vf.Verdict {
 		return &quic.UTransport{Transport: tr, QUICSpec: spec}
 	}
 	ut := newUT(0)
+	// a Transport is a long-lived object: it may have been used before the first spec dial
+	switch c.PreUse {
+	case "listen":
+		pln, err := ut.Transport.Listen(sim.ServerTLS(false, w.ServerKeys), &quic.Config{DisablePathMTUDiscovery: true})
+		if err != nil {
+			return vf.Bad("C02/harness/pre-listen", "%v", err)
+		}
+		defer pln.Close()
+		u.Class("transport-also-listens")
+	case "plain":
+		pc, err := ut.Transport.Dial(ctx, sim.ServerAddr, sim.ClientTLS(w.ClientKeys), &quic.Config{DisablePathMTUDiscovery: true, MaxIdleTimeout: 20 * time.Second, HandshakeIdleTimeout: 10 * time.Second})
+		if err == nil {
+			pc.CloseWithError(0, "")
+			time.Sleep(2 * time.Second) // its closing period
+		}
+		u.Class("transport-dialled-plain-before")
+	}
+	var swapSpec *quic.QUICSpec
+	if c.SwapBase != "" {
+		var err error
+		if swapSpec, err = (specgen.Desc{Base: c.SwapBase}).Build(); err != nil {
+			return vf.Bad("C02/harness/spec-build", "%v", err)
+		}
+	}
 	cconf := &quic.Config{DisablePathMTUDiscovery: true, MaxIdleTimeout: 20 * time.Second, HandshakeIdleTimeout: 10 * time.Second}
 	if c.Observed == "trace" || c.Observed == "both" {
 		cconf.Tracer = sim.DiscardTracer
@@ -231,6 +269,10 @@ func runCase(c Case, u *vf.Unit) *vf.Verdict {
 	for i := 0; i < c.Dials; i++ {
 		if i > 0 && c.FreshTr {
 			ut = newUT(i)
+		} else if i > 0 && swapSpec != nil {
+			// another UTransport value over the SAME Transport, with another spec
+			ut = &quic.UTransport{Transport: ut.Transport, QUICSpec: swapSpec}
+			u.Class("spec-swapped-on-one-transport")
 		}
 		t0 := w.Router.Now()
 		conn, err := ut.Dial(ctx, sim.ServerAddr, sim.ClientTLS(w.ClientKeys), cconf)
